@@ -82,6 +82,28 @@ def check(ctx):
                     late.append(c2)
             ctx.check(not late, opt, late[0] if late else floop, "no target-reaching call after the final samples", "the target can be called again after the final samples: they are not the last calls of the run", construct=f"evaluation after final sampling: {canon(late[0].func) if late else ''}")
 
+    # ------------------------------------------------------------------ R7 (shared with C19-R1)
+    from .c19 import record_context, tuple_coherence
+
+    it_idx, restore = record_context(prog, R)
+    if it_idx is not None:
+        tuple_coherence(ctx, prog, R, opt, it_idx, restore, rule_id="R7")
+    # ------------------------------------------------------------------ R8
+    from ..flow import TagFlow as _TF
+    from .c10 import _TargetPolicy
+
+    ctx.rule("R8", "the SD returned by an evaluation is the SD the target reported at that call", floor=1)
+    lcall = R.logger_call
+    sk = [c for f_, c in R.target_sinks if f_ is lcall]
+    if sk:
+        tf = _TF(prog, lcall, _TargetPolicy(sk[0]))
+        for node in ast.walk(lcall.node):
+            if isinstance(node, ast.Return) and isinstance(node.value, ast.Tuple) and len(node.value.elts) >= 2:
+                tg = tf.tags(node.value.elts[1])
+                if tg is None:
+                    continue
+                ctx.check("T" in tg, lcall, node, "second output = the target's reported SD (or None)", "the SD handed back by an evaluation is not the SD the target reported at that call (e.g. a stored SD of an earlier observation): ysd_vec does not hold the reported SDs", construct=f"returned SD {canon(node.value.elts[1])} without target provenance")
+
     # ------------------------------------------------------------------ R6
     ctx.rule("R6", "the final re-sampling runs for every noisy run with noise_final_samples > 0", floor=0)
     if floop is not None:
